@@ -163,3 +163,14 @@ def _lemma_r1(prog):
 
 
 lemmas.register("C07.R1", _lemma_r1)
+
+
+def _lemma_r4(prog):
+    from ..engine import Report
+    rep = Report("C07")
+    rep.set_config(prog.config)
+    guarded(rep, "C07.R4", "x", lambda: _word_fragment(prog, rep))
+    return not rep.violations
+
+
+lemmas.register("C07.R4", _lemma_r4)
